@@ -128,7 +128,13 @@ fn oracle() -> SeqOracle {
             let state = match before.entry(k) {
                 None => "absent",
                 Some(e) if e.4 => "soft-deleted",
-                Some(_) => "expired-unswept",
+                Some(_) => {
+                    if passed_over_by_its_sweep(run, i, k) {
+                        "expired-and-passed-over-by-its-sweep"
+                    } else {
+                        "expired-unswept"
+                    }
+                }
             };
             if st == Some(CommandStatus::Rejected(RejectionReason::KeyAlreadyExists)) {
                 out.push(Finding::new(
@@ -166,6 +172,8 @@ fn spec(ctx: &Ctx, shards: usize) -> SeqSpec {
         Op::ProbedPut { k: 1, w: Some(3), ttl_ms: None },
         Op::ProbedPut { k: 1, w: None, ttl_ms: Some(1500) },
         Op::Delete { k: 1 },
+        // a TTL change that keeps the expiry in its shard (2 s -> 2.5 s) / moves it: the sweep must still find the key
+        Op::Upsert { k: 1, value: true, w: None, ttl_ms: Some(2500), remove_ttl: false },
         // heavy enough to need key 1's space (W = 5)
         Op::Put { k: 2, w: Some(4), ttl_ms: None },
         Op::Delete { k: 2 },
@@ -176,6 +184,8 @@ fn spec(ctx: &Ctx, shards: usize) -> SeqSpec {
     ];
     if !quick {
         alphabet.push(Op::Put { k: 2, w: Some(1), ttl_ms: Some(1000) });
+        alphabet.push(Op::Upsert { k: 1, value: true, w: None, ttl_ms: Some(1500), remove_ttl: false });
+        alphabet.push(Op::Upsert { k: 1, value: true, w: None, ttl_ms: None, remove_ttl: true });
     }
     SeqSpec {
         name: format!("seq/put-in-every-life-cycle-state/shards{}", shards),
@@ -183,12 +193,14 @@ fn spec(ctx: &Ctx, shards: usize) -> SeqSpec {
         world: Default::default(),
         prefix: vec![],
         alphabet,
-        depth: if quick { 6 } else { 7 },
+        depth: if quick { 7 } else { 8 },
         allow: None,
         oracle: oracle(),
         keys: vec![1, 2],
         canon_sketch: false,
-        ghost_key: None,
+        // the classification of an expired entry depends on the history (did a sweep of its shard pass it over?):
+        // histories that differ in it are not merged
+        ghost_key: Some(passed_over_key(vec![1, 2])),
         max_states: 2_000_000,
         time_cap_s: if quick { 25.0 } else { 600.0 },
     }
